@@ -575,3 +575,11 @@ impl<'a> Interpreter<'a> {
         }
     }
 }
+
+#[cfg(feature = "verif_hooks")]
+impl<'a> Interpreter<'a> {
+    /// Forwarder so the external verification harness can call the private jump check.
+    pub fn verif_checked_jump_target(pc: usize, dist: i32, len: usize) -> CelResult<usize> {
+        Self::checked_jump_target(pc, dist, len)
+    }
+}
